@@ -446,7 +446,7 @@ theorem decode_accepts_tag_only_nullable (E : Ext) (env : Env) (perms : List Str
   unfold decode
   by_cases hps : isPlainStruct ft = true
   · simp [hu, jsonLookup, hp, hc', hv, hvoid, hn, hps, hmk]
-  · simp [hu, jsonLookup, hp, hc', hv, hvoid, hn, hps, hmk, hcl, htag, Ne.symm htag]
+  · simp [hu, jsonLookup, hp, hc', hv, hvoid, hn, hps, hmk, hcl, Ne.symm htag]
 
 /-- An explicit `null` member for a field with a nullable validator is treated exactly as if the member were
 absent (whatever else the document contains, in both modes, for every caller). -/
@@ -489,6 +489,41 @@ theorem attrHas_of_default (f : FieldDef) (slots : List (String × PyVal)) (h : 
   cases lookupSlot f.name slots with
   | some v => rfl
   | none => cases f.attrNullable <;> simp [h]
+
+/-! ## 3. No other exception escapes -/
+
+/-- For every environment an accepted spec can produce (`envWF`, checked by the driver on every environment the
+harness sends; `fieldFlagsWF`: the `bb.Attribute` flags agree with the validator objects), every validator
+whose classes exist (`tyWF`), every caller, both modes and EVERY document — whatever its shape — the decoder
+raises nothing but its validation error: no `KeyError`, `TypeError`, `AttributeError`, `NameError` …
+(`Err.crash`) escapes. -/
+theorem decode_no_crash (E : Ext) (env : Env) (perms : List String) (strict : Bool) (t : PTy) (j : JVal)
+    (hwf : envWF env = true) (hff : fieldFlagsWF env = true) (ht : tyWF env t = true) :
+    ∀ e, decode E env perms strict t j ≠ .error (.crash e) :=
+  decode_nc E env perms strict hwf hff j t ht
+
+/-- The same for the entry point `json_compat_obj_decode`. -/
+theorem jsonCompatObjDecode_no_crash (E : Ext) (env : Env) (perms : List String) (strict : Bool) (t : PTy)
+    (j : JVal) (hwf : envWF env = true) (hff : fieldFlagsWF env = true) (ht : tyWF env t = true) :
+    ∀ e, jsonCompatObjDecode E env perms strict t j ≠ .error (.crash e) := by
+  have hd := decode_nc E env perms strict hwf hff j t ht
+  unfold jsonCompatObjDecode
+  cases t <;> simp only [] <;> repeat' split
+  all_goals first
+    | exact makeStoneFriendly_nc E env perms strict true _ j
+    | exact validate_nc E env _ _
+    | exact NoCrash.ok _
+    | (rename_i e he; intro e' h; exact hd e' (by rw [he]; cases h; rfl))
+
+/-- Without `fieldFlagsWF` the statement is false of the model: a field flagged `user_defined` whose validator is
+a primitive makes `Attribute.__set__` call a method the validator does not have. (No generated module has such a
+field; the harness evaluates `fieldFlagsWF` on every environment it builds from real specs.) -/
+example :
+    let f : FieldDef := ⟨"a", .bool {}, false, true, none, none⟩
+    let env : Env := ⟨[⟨"ns.S", [⟨"ns.S", [f]⟩], none, false⟩], []⟩
+    envWF env = true ∧ fieldFlagsWF env = false ∧
+    ∀ E, decode E env [] false (.struct {} "ns.S") (.obj [("a", .bool true)]) = crash "AttributeError" :=
+  ⟨by decide +kernel, by decide +kernel, fun _ => rfl⟩
 
 /-! ## Non-vacuity: a small environment on which every hypothesis above is met -/
 
@@ -591,5 +626,15 @@ example : decode E0 env0 [] true (.struct {} "ns.S") (.obj [("a", .int 1), ("b",
 example : nodupS ((sO.fieldsFor []).map (·.name)) = true ∧ (sO.fieldsFor []).all (·.optional env0) = true := by
   decide +kernel
 example : decode E0 env0 [] true (.struct {} "ns.O") (.obj []) = .ok (.struct "ns.O" []) := rfl
+
+/-- `decode_no_crash` on `env0`: documents of the shapes that used to escape with other exceptions (a non-object
+for a struct with enumerated subtypes; a number where a union is expected; a list where a struct is) are refused
+with the validation error. -/
+example : tyWF env0 (.tree {} "ns.R") = true ∧ tyWF env0 (.union {} "ns.U") = true ∧
+    tyWF env0 (.map {} (.str {} none none none) (.list {} (.struct {} "ns.S") none none)) = true := by decide +kernel
+example : decode E0 env0 [] false (.tree {} "ns.R") (.arr []) = verr "expected object" ∧
+    decode E0 env0 [] false (.union {} "ns.U") (.int 3) = verr "expected string or object" ∧
+    decode E0 env0 [] false (.map {} (.str {} none none none) (.list {} (.struct {} "ns.S") none none))
+      (.obj [("k", .arr [.arr []])]) = verr "expected object" := ⟨rfl, rfl, rfl⟩
 
 end StoneVerif.C06
